@@ -14,3 +14,62 @@ Example C13_model_smoke :
              ++ [Run 0; Run 0; Run 0; Run 0; Run 0; Run 0; Run 0; Run 1; Run 1; Run 1]))
   = None.
 Proof. vm_compute. split; reflexivity. Qed.
+
+(* ---- theorems (types pasted verbatim from Proofs/LockProofs.v by tools/pin.py) ---- *)
+From NW Require Import Proofs.LockProofs.
+
+Theorem C13_no_wedge_all_schedules :
+  forall (ts : list (nat * program)) (evs : list sev),
+    Forall (fun tp : nat * program => disciplined (snd tp) = true) ts ->
+    snd (lrun (mk_tasks ts) evs) = None.
+Proof. exact no_wedge. Qed.
+
+Theorem C13_current_handlers_never_wedge :
+  forall (hs : list (nat * handler)) (evs : list sev),
+    snd
+      (lrun (mk_tasks (map (fun th : nat * handler => (fst th, handler_prog (snd th))) hs)) evs) =
+    None.
+Proof. exact handlers_never_wedge. Qed.
+
+Theorem C13_all_handlers_disciplined :
+  forall h : handler, disciplined (handler_prog h) = true.
+Proof. exact handler_disciplined. Qed.
+
+Theorem C13_blocked_thread_resumes :
+  forall (s : lstate) (e : sev) (th l o : nat),
+    Inv s ->
+    lstep s e = LBlockedThread th l o ->
+    exists s' : lstate, lstep s (Run o) = LOk s' /\ lookup l (sync_owner s') = None.
+Proof. exact blocked_owner_releases. Qed.
+
+Theorem C13_parked_task_holds_no_map_lock :
+  forall (s : lstate) (i : nat) (t : task) (l : nat),
+    Inv s -> nth_error (tasks s) i = Some t -> t_status t <> Ready -> ~ In (l, i) (sync_owner s).
+Proof. exact parked_owns_no_sync. Qed.
+
+Theorem C13_timeout_releases_locks :
+  forall (s : lstate) (i : nat) (t : task),
+    nth_error (tasks s) i = Some t ->
+    t_status t = Parked ->
+    exists s' : lstate,
+      lstep s (Cancel i) = LOk s' /\
+      nth_error (tasks s') i =
+      Some {| t_thread := t_thread t; t_prog := []; t_status := Done; t_async := None |} /\
+      (forall l : nat, ~ In (l, i) (sync_owner s')) /\
+      (forall l : nat, lookup l (sync_owner s') <> Some i) /\
+      (forall c : nat,
+       t_async t = Some c ->
+       chan_state s' c = rw_release (chan_state s c) /\
+       (forall c' : nat, c' <> c -> chan_state s' c' = chan_state s c')) /\
+      (t_async t = None -> chan_lock s' = chan_lock s).
+Proof. exact cancel_releases. Qed.
+
+Theorem C13_guard_across_await_deadlock_refuted :
+  exists (ts : list (nat * program)) (evs : list sev),
+      ts = [(0%nat, p_leave 0); (0%nat, p_channels_owner_old [0%nat])] /\
+      snd (lrun (mk_tasks ts) evs) <> None.
+Proof. exact old_channels_owner_wedges. Qed.
+
+Theorem C13_old_handler_undisciplined :
+  forall (c : nat) (cs : list nat), disciplined (p_channels_owner_old (c :: cs)) = false.
+Proof. exact channels_owner_old_not_disciplined. Qed.
